@@ -22,7 +22,7 @@ def finish (A : Abs) (ins : List Instr) : List Instr × List (List Byte) :=
      A.log ++ [A.cur.takeWhile (· ≠ 0)])
   else (ins, A.log)
 
-theorem stashRest_log (p : Parser) (s : Byte) : (stashRest p s).1.log = p.log := by
+theorem stashRest_log (p : Parser) (s : Bool) : (stashRest p s).1.log = p.log := by
   unfold stashRest; dsimp only
   split
   · rfl
@@ -31,10 +31,10 @@ theorem stashRest_log (p : Parser) (s : Byte) : (stashRest p s).1.log = p.log :=
 theorem chopR_noline (p : Parser) (h : NoLine (rest p)) :
     (chopR p).2 = some .need ∧ (chopR p).1.log = p.log := by
   cases h with
-  | inl h => rw [chopR_stash0 p h]; exact ⟨rfl, stashRest_log p 0⟩
+  | inl h => rw [chopR_stash0 p h]; exact ⟨rfl, stashRest_log p false⟩
   | inr h =>
     obtain ⟨e, he, hge⟩ := h
-    rw [chopR_stash1 p e he hge]; exact ⟨rfl, stashRest_log p 1⟩
+    rw [chopR_stash1 p e he hge]; exact ⟨rfl, stashRest_log p true⟩
 
 /-- nothing marked and no complete line in the buffer: `need more data`, nothing logged -/
 theorem pullEv_noline (f : Nat) (p : Parser) (hf : mu p < f) (hm : ¬ Marked p) (h : NoLine (rest p)) :
@@ -54,8 +54,8 @@ theorem lastRes_need (x : Parser × PullRes) (ins : List Instr) (h : x.2.isNeed 
   | eop => rfl
   | ve ls => rw [hx] at h; cases h
 
-theorem not_marked_of_stash (p : Parser) (h : p.stash = []) : ¬ Marked p := by
-  intro hm; exact hm.1 (by rw [h]; rfl)
+theorem not_marked_of_eolp (p : Parser) (h : p.eolp = false) : ¬ Marked p := by
+  unfold Marked; rw [h]; simp
 
 theorem x_not_s (v : String) (h : (v == "X") = true) : (v == "S") = false := by
   have : v = "X" := by simpa using h
@@ -66,59 +66,76 @@ theorem last_spec (q : Parser) (A : Abs) (hpost : Post q A) (hnl : NoLine (rest 
     (hlast : A.sc.pend = true → A.sc.empty = false → A.sc.sp = false) (ins : List Instr) :
     lastRes (pullEv (q.buf.length + 2) q) ins = finish A ins := by
   by_cases hm : Marked q
-  · have hm' := (marked_iff q).1 hm
-    have hcur : A.cur ≠ [] := by rw [← hpost.rel.stash]; exact hm'.1
-    have hpend : A.sc.pend = true := (hpost.rel.mark hcur).1 hm'.2
-    have hemp : A.sc.empty = false := by
-      cases he : A.sc.empty with
-      | false => rfl
-      | true => exact absurd (hpost.inv.1.1 he) hcur
-    have hsp := hlast hpend hemp
-    have hnf : ¬ Fold (bpOf q) := by
-      rw [fold_iff, bpOf_eq]; intro hf
-      have := hpost.sp hf; rw [hsp] at this; cases this
-    have hround := round_marked q ⟨hm, hnf⟩
-    have hq1 : ¬ Marked (doProc { q with sentinel := 0 }).1 := not_marked_of_stash _ rfl
-    have hq2 : ¬ Marked (resetMeth (doProc { q with sentinel := 0 }).1) := not_marked_of_stash _ rfl
-    have hn1 := pullEv_noline (q.buf.length + 2) _ (mu_lt_fuel (doProc { q with sentinel := 0 }).1) hq1 hnl
-    have hn2 := pullEv_noline (q.buf.length + 2) _
-      (mu_lt_fuel (resetMeth (doProc { q with sentinel := 0 }).1)) hq2 hnl
-    have hsnd : (doProc { q with sentinel := 0 }).2 = (procLine A.comp A.cur).2 := by
-      rw [doProc_snd]; show (procLine q.comp q.stash).2 = _; rw [hpost.rel.comp, hpost.rel.stash]
-    have hcomp : (doProc { q with sentinel := 0 }).1.comp = (procLine A.comp A.cur).1 := by
-      rw [doProc_comp]; show (procLine q.comp q.stash).1 = _; rw [hpost.rel.comp, hpost.rel.stash]
-    have hlog : (doProc { q with sentinel := 0 }).1.log = A.log ++ [A.cur.takeWhile (· ≠ 0)] := by
-      rw [doProc_log]; show q.log ++ [q.stash.takeWhile (· ≠ 0)] = _
-      rw [hpost.rel.log, hpost.rel.stash]
-    rw [pullEv_round _ q (mu_lt_fuel q), hround]
-    unfold finish
-    rw [if_pos ⟨hpend, hcur⟩]
-    unfold procRes
-    cases hr : (procLine A.comp A.cur).2 with
-    | none =>
-      rw [hr] at hsnd; simp only [hsnd]
-      rw [lastRes_need _ _ hn1.1, hn1.2, hlog]
-    | eop =>
-      rw [hr] at hsnd; simp only [hsnd]
-      rw [lastRes_need _ _ hn2.1, hn2.2]
-      show (ins, (doProc { q with sentinel := 0 }).1.log) = _
-      rw [hlog]
-    | ve =>
-      rw [hr] at hsnd; simp only [hsnd]
-      split
-      · rename_i hx
+  · have hpend : A.sc.pend = true := hpost.rel.mark.1 hm
+    by_cases hs : q.stash.length ≠ 0
+    · have hcur : A.cur ≠ [] := by
+        rw [← hpost.rel.stash]; intro hx; rw [hx] at hs; exact hs rfl
+      have hemp : A.sc.empty = false := by
+        cases he : A.sc.empty with
+        | false => rfl
+        | true => exact absurd (hpost.inv.1.1 he) hcur
+      have hsp := hlast hpend hemp
+      have hnf : ¬ Fold (bpOf q) := by
+        rw [fold_iff, bpOf_eq]; intro hf
+        have := hpost.sp hf; rw [hsp] at this; cases this
+      have hround := round_marked q ⟨hm, hnf⟩ hs
+      have hq1 : ¬ Marked (doProc (unmark q)).1 := not_marked_of_eolp _ rfl
+      have hq2 : ¬ Marked (resetMeth (doProc (unmark q)).1) := not_marked_of_eolp _ rfl
+      have hn1 := pullEv_noline (q.buf.length + 2) _ (mu_lt_fuel (doProc (unmark q)).1) hq1 hnl
+      have hn2 := pullEv_noline (q.buf.length + 2) _
+        (mu_lt_fuel (resetMeth (doProc (unmark q)).1)) hq2 hnl
+      have hsnd : (doProc (unmark q)).2 = (procLine A.comp A.cur).2 := by
+        rw [doProc_snd]; show (procLine q.comp q.stash).2 = _; rw [hpost.rel.comp, hpost.rel.stash]
+      have hcomp : (doProc (unmark q)).1.comp = (procLine A.comp A.cur).1 := by
+        rw [doProc_comp]; show (procLine q.comp q.stash).1 = _; rw [hpost.rel.comp, hpost.rel.stash]
+      have hlog : (doProc (unmark q)).1.log = A.log ++ [A.cur.takeWhile (· ≠ 0)] := by
+        rw [doProc_log]; show q.log ++ [q.stash.takeWhile (· ≠ 0)] = _
+        rw [hpost.rel.log, hpost.rel.stash]
+      rw [pullEv_round _ q (mu_lt_fuel q), hround]
+      unfold finish
+      rw [if_pos ⟨hpend, hcur⟩]
+      unfold procRes
+      cases hr : (procLine A.comp A.cur).2 with
+      | none =>
+        rw [hr] at hsnd; simp only [hsnd]
         rw [lastRes_need _ _ hn1.1, hn1.2, hlog]
-        rw [hcomp] at hx
-        rw [x_not_s _ hx]; simp
-      · unfold lastRes
-        dsimp only
-        rw [hcomp, hlog]
+      | eop =>
+        rw [hr] at hsnd; simp only [hsnd]
+        rw [lastRes_need _ _ hn2.1, hn2.2]
+        show (ins, (doProc (unmark q)).1.log) = _
+        rw [hlog]
+      | ve =>
+        rw [hr] at hsnd; simp only [hsnd]
+        split
+        · rename_i hx
+          rw [lastRes_need _ _ hn1.1, hn1.2, hlog]
+          rw [hcomp] at hx
+          rw [x_not_s _ hx]; simp
+        · unfold lastRes
+          dsimp only
+          rw [hcomp, hlog]
+    · -- the input ends in an empty line: the mark comes off, nothing is processed
+      have hcur : A.cur = [] := by
+        rw [← hpost.rel.stash]; exact List.eq_nil_of_length_eq_zero (by omega)
+      have hemp : A.sc.empty = true := hpost.inv.1.2 hcur
+      have hnf : ¬ Fold (bpOf q) := by
+        rw [fold_iff, bpOf_eq]; intro hf
+        have := hpost.inv.2.2 (hpost.sp hf); rw [hemp] at this; cases this
+      have hround := round_marked_empty q ⟨hm, hnf⟩ hs
+      have hq1 : ¬ Marked (unmark q) := not_marked_of_eolp _ rfl
+      have hn := pullEv_noline (q.buf.length + 2) (unmark q) (mu_lt_fuel (unmark q)) hq1 hnl
+      rw [pullEv_round _ q (mu_lt_fuel q), hround]
+      dsimp only
+      rw [lastRes_need _ _ hn.1, hn.2]
+      unfold finish
+      rw [if_neg (fun hx => hx.2 hcur)]
+      show (ins, q.log) = _
+      rw [hpost.rel.log]
   · have hn := pullEv_noline (q.buf.length + 2) q (mu_lt_fuel q) hm hnl
     rw [lastRes_need _ _ hn.1, hn.2]
     unfold finish
     rw [if_neg, hpost.rel.log]
     intro hx
-    have := (hpost.rel.mark hx.2).2 hx.1
-    exact hm ((marked_iff q).2 ⟨by rw [hpost.rel.stash]; exact hx.2, this⟩)
+    exact hm (hpost.rel.mark.2 hx.1)
 
 end Echse.Ical
